@@ -4,12 +4,16 @@ import Mathlib.Algebra.Order.Field.Rat
 /-!
 # C17 — Detectors accumulate linearly, conserve counts and reset on read-out
 
-All theorems are about `HcipyVerif.Detector.run` / `nRun`, the model of
+All theorems are about `HcipyVerif.Detector.run` / `pRun`, the model of
 `NoiselessDetector` / `NoisyDetector` (with the pending repairs D15, D29, D30, D31 applied), for
 **every** history of `integrate` / `readOut` operations, every detector shape and subsampling
 factor, over an arbitrary field `K`; the model is tied to the code by the C17 correspondence
-(harness/props/c17.py).  Images are values (lists of pixels); that the real objects do not alias
-is checked on the real objects by the harness after every operation.
+(harness/props/c17.py).  In `run` images are values (lists of pixels); aliasing — arrays as heap cells, the caller
+overwriting buffers it passed in and images it got back — is the subject of the reference-level model `rStep`
+(section "reference level" below: bridge to `run`, `caller_arrays_untouched`, a `Bad` variant that does alias), which
+the driver runs next to every noiseless history and the harness compares with the real objects (contents of every
+array the caller holds after every operation, `np.shares_memory`).  The grid an image is labelled with is modelled by
+`tStep` (`image_grid_is_detector_grid`).
 
 The only hypothesis that occurs, `Rep g st cur` ("the accumulator of `st` is the sum of the pending
 integrations `cur`"), holds for the freshly constructed detector with `cur = []` (`Rep.init`).
@@ -17,6 +21,7 @@ integrations `cur`"), holds for the freshly constructed detector with `cur = []`
 set_option linter.unusedSimpArgs false
 set_option linter.unusedVariables false
 set_option linter.unusedSectionVars false
+set_option linter.unnecessarySeqFocus false
 
 namespace HcipyVerif.Detector
 open HcipyVerif.Binning
@@ -127,31 +132,68 @@ theorem on_detector_grid (g : Geom) (ops : List (Op K)) :
   intro img h
   obtain ⟨e, he, rfl⟩ := List.mem_map.mp h
   apply sumCharges_length
-  -- every exposure consists of valid integrations
-  have key : ∀ (ops : List (Op K)) (cur : List (List K × K × K)), Valid g cur →
-      ∀ e ∈ exposures g cur ops, Valid g e := by
-    intro ops
-    induction ops with
-    | nil => intro cur _ e he; simp [exposures] at he
-    | cons op ops ih =>
-      intro cur hc e he
-      cases op with
-      | readOut =>
-        simp only [exposures, List.mem_cons] at he
-        rcases he with rfl | he
-        · exact hc
-        · exact ih [] (by intro x hx; simp at hx) e he
-      | integrate p dt w =>
-        by_cases hp : p.length = g.ninput
-        · simp only [exposures, hp, if_true] at he
-          refine ih _ ?_ e he
-          intro x hx
-          rcases List.mem_append.mp hx with h | h
-          · exact hc x h
-          · simp at h; subst h; exact hp
-        · simp only [exposures, hp, if_false] at he
-          exact ih cur hc e he
-  exact key ops [] (by intro x hx; simp at hx) e he
+  exact exposures_valid g ops [] (by intro x hx; simp at hx) e he
+
+/-! ### well-sized histories
+
+The model refuses an integration whose power array has not the size of the input grid (`Obs.refused`,
+state unchanged) — what `reshape` raising does in the code, and what `NoiselessDetector` with
+subsampling 1 does after the repair D170 (before it, that one detector kind accepted any array; the
+harness sends wrong-size arrays and compares refusal and the unchanged state).  Independently of how a
+wrong-size array is treated, the clauses hold for every history that contains none: -/
+
+/-- a well-sized history is never refused -/
+theorem wellsized_never_refused (g : Geom) (ops : List (Op K)) (h : WellSized g ops) (st : St K) :
+    Obs.refused ∉ (run g st ops).2 := by
+  induction ops generalizing st with
+  | nil => simp [run_nil]
+  | cons op ops ih =>
+    rw [run_cons]
+    intro hm
+    rcases List.mem_cons.mp hm with h1 | h1
+    · cases op with
+      | readOut => simp [step, readOut] at h1
+      | integrate p dt w => simp [step, Detector.integrate, h.head_integrate] at h1
+    · exact ih h.tail _ h1
+
+/-- **first clause, for well-sized histories**: no size test occurs in the statement — the images are
+the sums over *all* integrations between consecutive read-outs -/
+theorem readout_is_sum_wellsized (g : Geom) (ops : List (Op K)) (h : WellSized g ops) :
+    images (run g ({} : St K) ops).2 = (exposuresAll [] ops).map (sumCharges g) := by
+  rw [readout_is_sum, exposures_eq_all g ops [] h]
+
+/-- **Pixel by pixel, assembled**: the `k`-th image a history returns exists as soon as there is a
+`k`-th exposure, and its pixel `i` is `Σ_j bin(p_j)[i]·dt_j·w_j` over the integrations of that
+exposure.  (Which fine pixels `bin(p)[i]` adds up: `readout_pixel_index` below.) -/
+theorem readout_pixel (g : Geom) (ops : List (Op K)) (k : Nat) (e : List (List K × K × K))
+    (he : (exposures g [] ops)[k]? = some e) (i : Nat) (hi : i < g.npix) :
+    ∃ img, (images (run g ({} : St K) ops).2)[k]? = some img ∧
+      img.getD i 0 = (e.map fun x => (binND g.s g.dims x.1).getD i 0 * x.2.1 * x.2.2).sum := by
+  refine ⟨sumCharges g e, ?_, ?_⟩
+  · rw [readout_is_sum, List.getElem?_map, he]; rfl
+  · exact sumCharges_pixel g e
+      (exposures_valid g ops [] (by intro x hx; simp at hx) e (List.mem_of_getElem? he)) i hi
+
+/-- **Pixel by pixel, down to the fine samples**: pixel `c` (multi-index on the detector grid) of the `k`-th
+image is `Σ_j (Σ_{r in the s×…×s box of c} p_j[fine index of c·s + r])·dt_j·w_j` — `boxSums` is that box sum in closed
+form (Model/Binning.lean).  No `binND` occurs on the right-hand side: a binning that permuted pixels would
+violate this. -/
+theorem readout_pixel_index (g : Geom) (ops : List (Op K)) (k : Nat) (e : List (List K × K × K))
+    (he : (exposures g [] ops)[k]? = some e) (c : List Nat) (hc : InBounds g.dims c) :
+    ∃ img, (images (run g ({} : St K) ops).2)[k]? = some img ∧
+      img.getD (flatIdx g.dims c) 0 = (e.map fun x =>
+        boxSums g.dims (g.dims.map fun _ => g.s) c (fun f => x.1.getD f 0) * x.2.1 * x.2.2).sum := by
+  obtain ⟨img, h1, h2⟩ := readout_pixel g ops k e he (flatIdx g.dims c) (flatIdx_lt g.dims c hc)
+  refine ⟨img, h1, ?_⟩
+  rw [h2]
+  congr 1
+  apply List.map_congr_left
+  intro x hx
+  have hv := exposures_valid g ops [] (by intro x hx; simp at hx) e (List.mem_of_getElem? he) x hx
+  rw [binND_getD g.s g.dims c hc x.1 hv]
+
+example : WellSized ({ dims := [1, 2], s := 2 } : Geom)
+    ([.readOut, .integrate [1, 2, 3, 4, 5, 6, 7, 8] (1/2) 3, .readOut] : List (Op Rat)) := by decide
 
 /-- **Binning conserves counts** (`statistic='sum'`, any shape, any factor). -/
 theorem binning_conserves_counts (s : Nat) (dims : List Nat) (p : List K)
@@ -186,46 +228,56 @@ theorem readout_total (g : Geom) (l : List (List K × K × K)) (hv : Valid g l) 
   simp only [sumCharges]
   rw [this, vzero_sum]; ring
 
-/-- **A noisy detector with all noise sources off returns the same images as the noiseless
-one**, for every history and whatever the random draws are. -/
-theorem noisy_off_eq_noiseless (g : Geom) (nz : Noise K) (hn : NoiseOff g nz) (ops : List (Op K)) :
-    (nRun g nz ({} : NSt K) ops).2 = (run g ({} : St K) ops).2 := by
-  obtain ⟨hd, hf, hs, hz⟩ := hn
-  have key : ∀ (ops : List (Op K)) (nst : NSt K) (st : St K), nst.acc = st.acc →
+/-- **A noisy detector with all noise sources off returns the same observations as the noiseless
+one**, operation by operation, for every history.  The statement is about `pRun`/`pStep`, the
+definitions the driver executes for every noisy detector (`Driver/C17.lean`, kind `noisy`), started
+from `allOff g` = `NoisyDetector(grid, 0, 0, 0, False, s)`. -/
+theorem noisy_off_eq_noiseless [DecidableEq K] (g : Geom) (ops : List (Op K)) :
+    (pRun g (allOff g : PSt K) (ops.map lift)).2 = (run g ({} : St K) ops).2 := by
+  have key : ∀ (ops : List (Op K)) (pst : PSt K) (st : St K), ParamsOff g pst → pst.acc = st.acc →
       (∀ a, st.acc = some a → a.length = g.npix) →
-      (nRun g nz nst ops).2 = (run g st ops).2 := by
+      (pRun g pst (ops.map lift)).2 = (run g st ops).2 := by
     intro ops
     induction ops with
-    | nil => intro _ _ _ _; rfl
+    | nil => intro _ _ _ _ _; rfl
     | cons op ops ih =>
-      intro nst st hacc hlen
-      cases op with
-      | readOut =>
-        have hl : (st.acc.getD (vzero g.npix)).length = g.npix := by
-          cases h : st.acc with
-          | none => simp [vzero]
-          | some a => simpa using hlen a h
-        simp only [nRun, run_cons, nStep, step, nReadOut, readOut, hacc, hf, hs]
-        rw [zipWith_mul_ones _ _ hl, zipWith_add_zero_mul _ _ (by rw [hl, hz])]
-        congr 1
-        exact ih _ _ rfl (by intro a h; simp at h)
-      | integrate p dt w =>
-        by_cases hp : p.length = g.ninput
-        · simp only [nRun, run_cons, nStep, step, nIntegrate, Detector.integrate, hp, if_true, hacc, hd]
-          congr 1
-          apply ih
-          · simp
-          · intro a h
-            simp only [Option.some.injEq] at h
-            subst h
-            have hc := binCharge_length g p dt w hp
-            cases h' : st.acc with
-            | none => simpa [accAdd] using hc
-            | some b => simp [accAdd, vadd_length, hlen b h', hc]
-        · simp only [nRun, run_cons, nStep, step, nIntegrate, Detector.integrate, hp, if_false]
-          congr 1
-          exact ih _ _ hacc hlen
-  exact key ops {} {} rfl (by intro a h; simp at h)
+      intro pst st hoff hacc hlen
+      obtain ⟨h1, h2, h3⟩ := pStep_lift_off hoff hacc hlen op
+      simp only [List.map_cons, pRun_cons, run_cons, h1]
+      congr 1
+      exact ih _ _ (hoff.step _ (offOp_lift g op)) h2 h3
+  exact key ops _ _ (allOff_paramsOff g) rfl (by intro a h; simp at h)
+
+/-- **The "everything is off" flag is true whenever nothing was switched on**: from a state in
+which every noise parameter has its off value, along any history of integrations, read-outs and
+assignments of *off* values (re-assigning what is already off, in any spelling), every read-out is
+flagged `off`.  (`pReads` pairs each read-out with `PSt.off`, the flag the driver prints and the
+harness compares with its own account of the real object's parameters.) -/
+theorem off_flag_true [DecidableEq K] (g : Geom) (ops : List (POp K))
+    (hops : ∀ op ∈ ops, OffOp g op = true) (pst : PSt K) (h : ParamsOff g pst) :
+    ∀ r ∈ pReads g pst ops, r.1 = true := by
+  induction ops generalizing pst with
+  | nil => intro r hr; simp [pReads] at hr
+  | cons op ops ih =>
+    have hnext := ih (fun o ho => hops o (by simp [ho])) _ (h.step op (hops op (by simp)))
+    intro r hr
+    cases op with
+    | readOut =>
+      simp only [pReads, List.mem_cons] at hr
+      rcases hr with rfl | hr
+      · exact h.off
+      · exact hnext r hr
+    | integrate p dt w => exact hnext r (by simpa [pReads] using hr)
+    | setFlat m => exact hnext r (by simpa [pReads] using hr)
+    | setDark d => exact hnext r (by simpa [pReads] using hr)
+    | setSigma s' => exact hnext r (by simpa [pReads] using hr)
+    | setPhoton b => exact hnext r (by simpa [pReads] using hr)
+
+/-- the flag on the freshly constructed all-off detector with no setters at all -/
+theorem off_flag_true_no_setters [DecidableEq K] (g : Geom) (ops : List (Op K)) :
+    ∀ r ∈ pReads g (allOff g : PSt K) (ops.map lift), r.1 = true :=
+  off_flag_true g _ (by intro op ho; obtain ⟨o, _, rfl⟩ := List.mem_map.mp ho; exact offOp_lift g o) _
+    (allOff_paramsOff g)
 
 /-- **Parameter setters between operations**: `flat_field`, `dark_current_rate`, `read_noise`,
 `include_photon_noise` may be assigned at any point of a history.  Whenever a read-out happens
@@ -282,6 +334,24 @@ theorem setters_off_eq_noiseless [DecidableEq K] (g : Geom) :
     | setSigma s' => simp only [pReads, strip]; exact ih _ st (by simpa [pStep] using hacc) hlen
     | setPhoton b => simp only [pReads, strip]; exact ih _ st (by simpa [pStep] using hacc) hlen
 
+/-- **Clause 4 with setters, unconditional form**: on a noisy detector constructed with everything
+off, along any history in which parameters are only ever assigned their off values, *every*
+read-out equals the noiseless detector's read-out at the same point of the history without the
+setters (the flag of `setters_off_eq_noiseless` is discharged by `off_flag_true`). -/
+theorem off_setters_eq_noiseless [DecidableEq K] (g : Geom) (ops : List (POp K))
+    (hops : ∀ op ∈ ops, OffOp g op = true) :
+    (pReads g (allOff g : PSt K) ops).map Prod.snd = reads g ({} : St K) (strip ops) := by
+  have h2 := setters_off_eq_noiseless g ops (allOff g : PSt K) ({} : St K) (fun _ => rfl)
+    (by intro a h; simp at h)
+  have h1 := off_flag_true g ops hops _ (allOff_paramsOff g)
+  generalize pReads g (allOff g : PSt K) ops = l1 at h1 h2
+  generalize reads g ({} : St K) (strip ops) = l2 at h2
+  induction h2 with
+  | nil => rfl
+  | cons hab _ ih =>
+    simp only [List.map_cons]
+    rw [hab (h1 _ (by simp)), ih (fun r hr => h1 r (by simp [hr]))]
+
 /-- the seeded-defect shape, concretely: scalar 0 (unit map) → explicit map → scalar 0 again: the
 last read-out is flagged "off" and equals the noiseless image -/
 example :
@@ -290,16 +360,132 @@ example :
       [.setFlat [2, 3], .integrate [1, 1] 1 1, .readOut, .setFlat [1, 1], .integrate [1, 2] 1 1, .readOut]
       = [(false, .image [2, 3]), (true, .image [1, 2])] := by decide +kernel
 
-/-! ### the unrepaired tree (`…Old`), counterexamples -/
+/-! ### the grid an image is labelled with -/
+
+/-- **Images live on the detector grid — the grid label**: whatever the caller hands to `integrate` (a Field on the
+input grid, a Field on a foreign grid, a plain array), every image of every history is labelled with the
+detector grid (driver ops `tint` / `tread`, compared with `image.grid` of the real object). -/
+theorem image_grid_is_detector_grid (ops : List TOp) (st : TSt)
+    (h : st.acc = none ∨ st.acc = some .detector) : ∀ t ∈ tRunWith relabel st ops, t = .detector := by
+  induction ops generalizing st with
+  | nil => simp [tRunWith]
+  | cons op ops ih =>
+    cases op with
+    | integrate p =>
+      simp only [tRunWith, tStepWith]
+      apply ih
+      rcases h with h | h <;> simp [h, tagAdd, relabel]
+    | readOut =>
+      simp only [tRunWith, tStepWith, List.mem_cons]
+      rintro t (rfl | ht)
+      · rcases h with h | h <;> simp [h]
+      · exact ih _ (Or.inl rfl) t ht
+
+/-- Old (D170, documentation): on the unrepaired subsampling-1 path a Field on a foreign grid makes the image live
+on that foreign grid — the label model can express the defect -/
+theorem Old_image_on_foreign_grid :
+    tRunWith relabelOld {} [.integrate .onForeign, .integrate .onInput, .readOut, .readOut] = [.foreign, .detector] ∧
+    tRunWith relabel {} [.integrate .onForeign, .integrate .onInput, .readOut, .readOut] = [.detector, .detector] := by
+  decide
+
+/-! ### reference level: aliasing
+
+Model/Detector.lean `rStep`: arrays are heap cells, the caller holds handles and may write through them. -/
+
+/-- **Bridge reference level → value level**: with arrays as heap cells and the caller free to overwrite every
+array it holds (buffers it passed in, images it got back) at any time, the images the read-outs return — each
+as it is when it is returned — are those of the value model `run` on the history in which every integration
+sees the content its buffer has at the call.  So every theorem above about `run` (`readout_is_sum`,
+`readout_pixel_index`, `readout_total`, …) holds for the reference-level detector, whatever the caller scribbles. -/
+theorem ref_images_eq_value_images (g : Geom) (ops : List (ROp K)) (st : RSt K) (h : RInv st) :
+    rImages g st ops = images (run g (absSt st) (valueOps g st ops)).2 := by
+  induction ops generalizing st with
+  | nil => simp [rImages, valueOps, run_nil, images]
+  | cons op ops ih =>
+    have hi := rStep_inv g st op h
+    cases op with
+    | alloc v =>
+      simp only [rImages, valueOps]
+      rw [ih _ hi, absSt_alloc g st v h]
+    | write r v =>
+      simp only [rImages, valueOps]
+      rw [ih _ hi, absSt_write g st r v h]
+    | integrate buf dt w =>
+      simp only [rImages, valueOps, run_cons]
+      rw [ih _ hi, absSt_integrate g st buf dt w h]
+      cases hs : (step g (absSt st) (Op.integrate (st.at buf) dt w)).2 <;>
+        simp [images] <;> simp [step, Detector.integrate] at hs <;> split at hs <;> simp at hs
+    | readOut =>
+      obtain ⟨e1, e2⟩ := absSt_readOut g st
+      simp only [rImages, valueOps, run_cons]
+      rw [ih _ hi, e1, e2]
+      simp [images]
+
+/-- **No aliasing**: an array the caller holds (a buffer it passed in, an image it got back) keeps its
+content through every later operation of the detector; only the caller's own writes to *that* array
+change it. -/
+theorem caller_arrays_untouched (g : Geom) (ops : List (ROp K)) (st : RSt K) (h : RInv st) (r : Nat)
+    (hr : r ∈ st.known) (hw : ∀ v, ROp.write r v ∉ ops) : (rRun g st ops).1.at r = st.at r := by
+  induction ops generalizing st with
+  | nil => rfl
+  | cons op ops ih =>
+    rw [rRun_cons]
+    simp only
+    rw [ih _ (rStep_inv g st op h) (rStep_known_sub g st op r hr) (fun v hv => hw v (by simp [hv]))]
+    have hlt := h.known_lt r hr
+    cases op with
+    | alloc v => simp only [rStep, RSt.at]; exact getD_append_lt _ _ _ hlt
+    | write r' v =>
+      simp only [rStep]
+      split
+      · have : r' ≠ r := by
+          rintro rfl
+          exact hw v (by simp)
+        simp only [RSt.at]; exact getD_set_ne _ _ _ _ this
+      · rfl
+    | integrate buf dt w =>
+      simp only [rStep]
+      split
+      · simp only [RSt.at]; exact getD_append_lt _ _ _ hlt
+      · rfl
+    | readOut => simp only [rStep, RSt.at]; exact getD_append_lt _ _ _ hlt
+
+
+/-- the first clause at reference level: the images are the sums over the exposures of the value history -/
+theorem ref_readout_is_sum (g : Geom) (ops : List (ROp K)) :
+    rImages g ({} : RSt K) ops = (exposures g [] (valueOps g {} ops)).map (sumCharges g) := by
+  rw [ref_images_eq_value_images g ops {} RInv.init]
+  exact readout_is_sum g _
+
+/-- **Bad** (in-place accumulation into the caller's buffer, read-out without copy): the array the caller passed
+in changes without the caller writing to it, and the image handed out *is* that array — on the same history the
+model of the real code leaves the buffer alone and hands out a new array.  (`caller_arrays_untouched` is
+therefore not true of every step function.) -/
+theorem Bad_detector_aliases :
+    let g : Geom := { dims := [2], s := 1 }
+    let ops : List (ROp Rat) := [.alloc [1, 2], .integrate 0 2 1, .readOut]
+    (rRunBad g {} ops).1.at 0 = [2, 4] ∧ (rRunBad g {} ops).2 = [.ref 0, .done, .ref 0] ∧
+    (rRun g {} ops).1.at 0 = [1, 2] ∧ (rRun g {} ops).2 = [.ref 0, .done, .ref 2] := by
+  decide +kernel
+
+/-- the hypotheses of `caller_arrays_untouched` are satisfiable, and a write to another array is allowed -/
+example : RInv (rRun ({ dims := [2], s := 1 } : Geom) ({} : RSt Rat) [.alloc [1, 2], .integrate 0 2 1]).1 ∧
+    (0 : Nat) ∈ (rRun ({ dims := [2], s := 1 } : Geom) ({} : RSt Rat) [.alloc [1, 2], .integrate 0 2 1]).1.known :=
+  ⟨by
+    have h0 : RInv ({} : RSt Rat) := RInv.init
+    exact rStep_inv _ _ _ (rStep_inv _ _ _ h0), by decide +kernel⟩
+
+/-! ### Old: the unrepaired tree (documentation of D15 / D29, not evidence: /repo is repaired, no driver op
+runs the `…Old` definitions and the harness sends nothing to them) -/
 
 /-- D15: on the unrepaired tree a read-out with nothing integrated fails. -/
-theorem readOutOld_fails_when_empty (g : Geom) :
+theorem Old_readOut_fails_when_empty (g : Geom) :
     ∃ o, (runOld g ({} : St Rat) [.readOut]).2 = [o] ∧ (match o with | .failed => True | _ => False) :=
   ⟨.failed, rfl, trivial⟩
 
 /-- D29: on the unrepaired tree a detector of 1 pixel with subsampling 2 (one axis) returns a
 2-pixel image. -/
-theorem integrateOld_ignores_subsampling :
+theorem Old_integrate_ignores_subsampling :
     images (runOld ({ dims := [1], s := 2 } : Geom) ({} : St Rat) [.integrate [1, 2] 1 1, .readOut]).2
       = [[1, 2]] ∧
     images (run ({ dims := [1], s := 2 } : Geom) ({} : St Rat) [.integrate [1, 2] 1 1, .readOut]).2
@@ -313,8 +499,11 @@ example :
       [.readOut, .integrate [1, 2, 3, 4, 5, 6, 7, 8] (1/2) 3, .integrate [1, 1, 1, 1, 1, 1, 1, 1] 2 1,
        .readOut, .readOut]).2 = [[0, 0], [29, 41], [0, 0]] := by decide +kernel
 
-example : NoiseOff ({ dims := [2], s := 1 } : Geom)
-    ({ dark := 0, flat := [1, 1], sigma := 0, draws := fun _ => [5, -3] } : Noise Rat) :=
-  ⟨rfl, rfl, rfl, fun _ => rfl⟩
+/-- `allOff` is what the driver builds for `new noisy <s> <dims> 0 -`, and the flag is `true` on it -/
+example : (allOff ({ dims := [2], s := 1 } : Geom) : PSt Rat).flat = [1, 1] ∧
+    (allOff ({ dims := [2], s := 1 } : Geom) : PSt Rat).dark = [0, 0] ∧
+    pReads ({ dims := [2], s := 1 } : Geom) (allOff ({ dims := [2], s := 1 } : Geom) : PSt Rat)
+      [.setFlat [1, 1], .integrate [1, 2] 1 1, .setPhoton false, .readOut] = [(true, .image [1, 2])] := by
+  refine ⟨by decide +kernel, by decide +kernel, by decide +kernel⟩
 
 end HcipyVerif.Detector
